@@ -1054,9 +1054,11 @@ func (p *parser) parseStep(n *yaml.Node) *Step {
 					case "entrypoint":
 						// https://docs.github.com/en/actions/learn-github-actions/workflow-syntax-for-github-actions#jobsjob_idstepswithentrypoint
 						exec.Entrypoint = p.parseString(input.val, false)
+						exec.entrypointKeyPos = input.key.Pos
 					case "args":
 						// https://docs.github.com/en/actions/learn-github-actions/workflow-syntax-for-github-actions#jobsjob_idstepswithargs
 						exec.Args = p.parseString(input.val, true)
+						exec.argsKeyPos = input.key.Pos
 					default:
 						exec.Inputs[input.id] = &Input{input.key, p.parseString(input.val, true)}
 					}
